@@ -21,7 +21,7 @@ def run(F, R):
     R.assume("the Storage contract (commit makes the set_* calls durable) is assumed for the restart clause")
 
     # the exchange function = the unique coroutine that calls verify_response
-    ex = [cx for cx in S.ctxs if any(t.get("trait") == "cup_ecdsa::Cupv2RequestHandler" and t.get("name") == "verify_response" for _, t in cx.bv.calls())]
+    ex = [cx for cx in S.ctxs if cx.bv.body.get("kind") == "coroutine" and lib.calls_verify_response(cx.bv)]
     exb = set(cx.bv.id for cx in ex)
     if not R.floor("C07-R1", "exchange function (caller of verify_response)", len(exb), 1):
         return
